@@ -54,6 +54,9 @@ func main() {
 		return
 	}
 	c, ok := checks[id]
+	if id == "replay" {
+		ok = true
+	}
 	if !ok {
 		fmt.Fprintln(os.Stderr, "unknown check", id)
 		os.Exit(2)
@@ -80,6 +83,13 @@ func main() {
 	e.Rep.Set("owned_map_ranges", append([]string{}, bi.OwnedMapRanges...))
 	e.Rep.Assume("the go tool chain (go list, go/types, gofmt) in this image is correct")
 	e.Rep.Assume("behaviour outside the stated alphabets and bounds is not covered")
+	if id == "replay" {
+		if len(os.Args) < 4 {
+			fmt.Fprintln(os.Stderr, "usage: vcheck replay <scratch-dir> <replay.json>")
+			os.Exit(2)
+		}
+		os.Exit(replay(e, os.Args[3]))
+	}
 	c.fn(e)
 	os.Exit(e.Rep.Finish())
 }
